@@ -18,6 +18,15 @@ CLAIMED = {
             'concretely through it), z3, the struct model. Bounds: values are the full 16-bit domain, offsets '
             '|d| <= 32767 as the statement says; window widths enumerated (quick 8/32/256, thorough every multiple of 8).',
             'DESIGN.md §6 C08'),
+    'C09': ('Header and packet codecs are executed symbolically over all field values, message seqs/types and opaque '
+            'payloads of symbolic length (CRC form and AEAD form); packing is executed from an arbitrary queue with a '
+            'symbolic MTU (512..1500): every datagram is proven <= MTU-28, messages that fit together are proven to '
+            'leave together, and construction is proven never to raise or lose messages, including 255/256/300 tiny '
+            'messages per tick.',
+            'Trusted: sx engine, struct/crc/AEAD models (crc32 uninterpreted, AEAD ideal). Bounds: <= 3 (thorough 6) '
+            'messages per packet in the codec round trip, queue <= 3 new + 2 resend messages (thorough 4+2) in the MTU lemma, '
+            'tiny-message instances n in {2,255,256,300} (thorough up to 600); payload lengths free within the stated ranges.',
+            'DESIGN.md §6 C09'),
 }
 
 NOT_YET = 'check not built yet in this round (planned: see DESIGN.md §6); not claimed'
